@@ -5,3 +5,4 @@ import TjdProps.C07
 import TjdProps.C14
 import TjdProps.C15
 import TjdProps.C02
+import TjdProps.C20
